@@ -27,6 +27,16 @@ KNOWN_HEADS = {
 ANY = (0, None)
 
 
+
+def _first_template(c):
+    for a, v in c.class_attrs.items():
+        if "let" in a and "template" in a and isinstance(v, ast.Constant) and isinstance(v.value, str):
+            try:
+                return v.value.format(0)
+            except Exception:
+                pass
+    return "__c0"
+
 def consumer_arity(fi) -> Tuple[Optional[Set[int]], Tuple[int, Optional[int]]]:
     """(exact set or None, (min, max or None)) of the number of arguments build_<head> accepts."""
     s0 = fi.params[1] if len(fi.params) > 1 else None
@@ -243,6 +253,43 @@ def run(ctx, rep):
         for mname, fi in c.methods.items():
             if any(isinstance(st, ast.While) for st in iter_stmts(fi.body)):
                 chooser = fi
+        if chooser is not None and len(name_attrs) < 2:
+            # Another shape of the same obligation: the chooser tests the candidate against a collection kept on the
+            # namer.  The collection has to hold EVERY user name before the first name is made up; one that starts
+            # empty and is only filled by the very methods that make names up avoids the names seen so far, so an
+            # anonymous object declared before a user object of the auto-namer's form takes that object's name.
+            wl0 = [st for st in iter_stmts(chooser.body) if isinstance(st, ast.While)][0]
+            tested = set()
+            for t in ast.walk(wl0):
+                if isinstance(t, ast.Compare) and isinstance(t.ops[0], (ast.NotIn, ast.In)):
+                    for m in ast.walk(t.comparators[0]):
+                        if isinstance(m, ast.Attribute) and isinstance(m.value, ast.Name) and m.value.id == "self":
+                            tested.add(m.attr)
+            fillers, empty_init = {}, {}
+            for a in tested:
+                vals = [(fi, v) for fi, v in c.self_attrs.get(a, [])]
+                empty_init[a] = bool(vals) and all(
+                    fi.name == "__init__" and (
+                        (isinstance(v, ast.Call) and isinstance(v.func, ast.Name) and v.func.id in ("set", "list", "dict") and not v.args)
+                        or (isinstance(v, (ast.List, ast.Set, ast.Dict, ast.Tuple)) and not getattr(v, "elts", getattr(v, "keys", None)))
+                    ) for fi, v in vals)
+                fillers[a] = set()
+                for mname, fi in c.methods.items():
+                    for n in walk_no_nested(fi.node):
+                        if isinstance(n, ast.Call) and isinstance(n.func, ast.Attribute) and n.func.attr in ("add", "append", "update", "extend", "insert") \
+                                and isinstance(n.func.value, ast.Attribute) and n.func.value.attr == a and isinstance(n.func.value.value, ast.Name) and n.func.value.value.id == "self":
+                            fillers[a].add(mname)
+                        if isinstance(n, ast.AugAssign) and isinstance(n.target, ast.Attribute) and n.target.attr == a:
+                            fillers[a].add(mname)
+            choosing = {mname for mname, fi in c.methods.items() if any(
+                isinstance(n, ast.Call) and isinstance(n.func, ast.Attribute) and n.func.attr == chooser.name for n in walk_no_nested(fi.node))}
+            cons = construct_of(chooser, "collection-complete-before-naming")
+            if tested and all(empty_init.get(a) for a in tested) and all(fillers[a] and fillers[a] <= choosing for a in tested):
+                rep.violation("C17.3", cons, f"the candidate is tested against self.{', self.'.join(sorted(tested))}, which starts empty and is filled only by {sorted(set().union(*fillers.values()))} -- the methods that make names up: only the names handed out so far are avoided, so an anonymous let declared before a user let or register called `{_first_template(c)}` takes that name and the circuit is refused (Object already exists), while the same program as text or through the builder is accepted", chooser.loc(),
+                              witness=f"Q.let(1); Q.let(2, '{_first_template(c)}')")
+            else:
+                rep.undecided("C17.3", cons, "the collection the chooser tests against is not recognised as complete or incomplete")
+            continue
         if chooser is None or len(name_attrs) < 2:
             rep.undecided("C17.3", cls_construct(ix, c.qualname), "chooser loop or user-name lists not recognised")
             continue
